@@ -288,3 +288,35 @@ def liveness(mir):
         li |= addr_taken
         li |= set(range(1, mir["argc"] + 1))
     return live_in
+
+
+def path_avoiding(mir, start_blocks, is_marker_block, from_after=None):
+    """A witness path of block indices from one of `start_blocks` to a Return that never enters a block for which
+    is_marker_block(block_index, block) is true, or None when every such path passes through a marker (must-pass-through).
+    Cleanup blocks and diverging edges are not followed."""
+    bl = mir["blocks"]
+    prev = {}
+    work = []
+    for s in start_blocks:
+        if s is None or bl[s]["cleanup"] or is_marker_block(s, bl[s]):
+            continue
+        prev[s] = None
+        work.append(s)
+    while work:
+        b = work.pop(0)
+        t = bl[b]["term"]
+        if t["k"] == "Return":
+            path = []
+            x = b
+            while x is not None:
+                path.append(x)
+                x = prev[x]
+            return list(reversed(path))
+        for s in succs(t):
+            if s in prev or bl[s]["cleanup"]:
+                continue
+            if is_marker_block(s, bl[s]):
+                continue
+            prev[s] = b
+            work.append(s)
+    return None
